@@ -691,3 +691,83 @@ def written_catalogue(rng, tag="w"):
             out.append((f"(({Xname} - A[{lname}]) * ({Xname}.T - A.T).T).sum()", (lambda A=A: ((X - A) * (X.T - A.T).T).sum()),
                         (lambda vals, A0=A0: float(np.sum((XV(vals) - A0) ** 2))), all_x))
     return out
+
+
+def written_derivatives(rep, rng, rounds, mode, prop):
+    """Derivatives of formulas AS WRITTEN (written_catalogue) against finite differences of the independent NumPy function.
+    mode 'sym': the symbolic gradient evaluated; 'jac': compile_jacobian / compile_gradient; 'hess': compile_hessian.
+    For the compiled modes the SAME expression object is compiled for two different variable orders, one after the other.
+    Returns (checked, bad)."""
+    import random as _r
+    import optyx.core.autodiff as AD
+    import optyx.core.compiler as C
+    from optyx import Variable
+    checked = bad = 0
+    for rnd_ in range(rounds):
+        wr = _r.Random(rng.random())
+        for label, build, ref, names in written_catalogue(wr, tag=f"d{rnd_}_"):
+            if label.startswith("norm(") or "norm(" in label:
+                continue                      # kinks: not differentiable everywhere
+            try:
+                e = build()
+            except Exception:
+                continue
+            vs = sorted(e.get_variables(), key=lambda v: natkey(v.name))
+            uniq = list(dict.fromkeys(names))
+            vals = {t: wr.choice(NICE) for t in uniq}
+            for v in vs:
+                vals.setdefault(v.name, wr.choice(NICE))
+            vals["extra0"] = 0.5
+
+            def fd1(nm, h=1e-5):
+                a, b = dict(vals), dict(vals)
+                a[nm] += h; b[nm] -= h
+                return (ref(a) - ref(b)) / (2 * h)
+
+            def fd2(n1, n2, h=1e-4):
+                def at(d1, d2):
+                    q = dict(vals); q[n1] += d1; q[n2] += d2
+                    return ref(q)
+                if n1 == n2:
+                    return (at(h, 0) - 2 * ref(vals) + at(-h, 0)) / (h * h)
+                return (at(h, h) - at(h, -h) - at(-h, h) + at(-h, -h)) / (4 * h * h)
+            try:
+                if mode == "sym":
+                    for v in vs:
+                        with np.errstate(all="ignore"):
+                            got = float(AD.gradient(e, v).evaluate(vals))
+                        want = fd1(v.name)
+                        checked += 1
+                        if not abs(got - want) <= 1e-5 * (1 + abs(want)):
+                            bad += 1
+                            rep.violation({"kind": "finite-difference", "obligation": "gradient(e, v) is the derivative of the formula as written",
+                                           "witness": {"formula": label, "wrt": v.name, "point": vals, "gradient": got, "finite_difference_of_numpy_formula": want}},
+                                          concrete=True)
+                    continue
+                orders_ = [orders(vs, [Variable("extra0")] if wr.random() < 0.5 else [], wr) for _ in range(2)]
+                for V in orders_:
+                    for v in V:
+                        vals.setdefault(v.name, 0.5)          # filler variables an ordering may add
+                    x = np.array([vals[v.name] for v in V], dtype=float)
+                    with np.errstate(all="ignore"):
+                        if mode == "jac":
+                            outs = {"compile_jacobian": np.asarray(AD.compile_jacobian([e], V)(x), dtype=float).reshape(-1),
+                                    "compile_gradient": np.asarray(C.compile_gradient(e, V)(x), dtype=float).reshape(-1)}
+                            want = np.array([fd1(v.name) if v.name in uniq or v.name in [t.name for t in vs] else 0.0 for v in V])
+                            tol = 1e-5
+                        else:
+                            outs = {"compile_hessian": np.asarray(AD.compile_hessian(e, V)(x), dtype=float)}
+                            want = np.array([[fd2(a.name, b.name) for b in V] for a in V])
+                            tol = 2e-3
+                    for nm_, got in outs.items():
+                        checked += 1
+                        if got.shape != want.shape or not np.all(np.abs(got - want) <= tol * (1 + np.abs(want))):
+                            bad += 1
+                            rep.violation({"kind": "finite-difference", "obligation": f"{nm_} is the derivative of the formula as written, for every variable order",
+                                           "witness": {"formula": label, "V": [v.name for v in V], "point": {v.name: vals[v.name] for v in V},
+                                                       "got": got.tolist(), "finite_difference_of_numpy_formula": want.tolist()}}, concrete=True)
+            except Exception as ex:
+                bad += 1
+                rep.violation({"kind": "exception", "obligation": "derivatives of API-built expressions can be built", "witness": {"formula": label, "mode": mode,
+                                                                                                                                "error": repr(ex)[:300]}}, concrete=True)
+    return checked, bad
